@@ -78,6 +78,9 @@ def switch_run(res, name, K, switch, expect, invariants=INVARIANTS, properties=P
 
 def trace_validate(res, name, K, n_traces, n_calls, invariants=None):
     """Pipeline B: random histories over larger pools executed on the real World, recorded, validated by TLC."""
+    from .. import replay as _rp
+    if _rp.REPLAY is not None:
+        return
     import copy
     import os
     from .. import tracecheck, record_world, tla
